@@ -133,7 +133,8 @@ def collision_stage(ck, rng, stats, quick):
     second, pid and host name - two PID namespaces or NFS clients -, same counter), following the maildir protocol
     (exclusive creation, next counter when the name is taken), at every call boundary of P1.  Neither message may be
     replaced, lost or truncated."""
-    for p1 in ('move', 'movex'):
+    exe = os.path.join(common.scratch_build('plain'), 'mdsort')
+    for p1, p2 in [(a, b) for a in ('move', 'movex') for b in ('script', 'mdsort', 'mdsortx')]:
         rnd = rng.randrange(0, 1000)
         count0 = rnd % 128
         base = None
@@ -154,6 +155,16 @@ def collision_stage(ck, rng, stats, quick):
             with open(script, 'w') as f:
                 f.write('#!/bin/sh\nfor c in %s; do\n n="%s/new/%d.%d_$c.%s:2,"\n if ( set -C; : > "$n" ) 2>/dev/null; then cat "%s" > "$n"; echo 0 > %s; exit 0; fi\ndone\necho 1 > %s\n' % (
                     ' '.join(str(count0 + 1 + j) for j in range(6)), A, iorun.PIN['VFIO_TIME'] and 1700000000, 4242, 'pinned', other, stf, stf))
+            if p2 != 'script':
+                # the other party is a second mdsort that sees the same second, pid, host name and counter (it inherits the pinned
+                # values) and delivers its own message from its own maildir into A: it follows the same protocol as P1, so that
+                # P1's still empty placeholder and P1's finished file are both names it has to step over
+                Bm = sb.maildir('B')
+                sb.add(Bm, 'new', OTHER, name='1500000001.7_7.other', mtime=1500000000)
+                c2 = sb.write_conf(('maildir "%s" {\n\tmatch all move "%s"\n}\n' % (Bm, A)).encode(), name='p2.conf')
+                with open(script, 'w') as f:
+                    f.write('#!/bin/sh\nenv -u VFIO_PLAN -u VFIO_XDEV -u VFIO_LOG LD_PRELOAD=%s %s%s -f %s 2>%s/p2.err\necho $? > %s\n' % (
+                        SHIM, 'VFIO_XDEV=1 ' if p2 == 'mdsortx' else '', exe, c2, sb.root, stf))
             os.chmod(script, 0o755)
             log = os.path.join(sb.root, 'p1.log')
             env = dict(iorun.PIN)
@@ -173,7 +184,7 @@ def collision_stage(ck, rng, stats, quick):
             stats['runs'] += 1; stats['collision'] = stats.get('collision', 0) + 1
             st2 = open(stf).read().strip() if os.path.exists(stf) else None
             files = survey(sb)
-            rep = {'stage': 'collision', 'p1': p1, 'boundary': k, 'random': rnd, 'p1_exit': rc1, 'p2_exit': st2,
+            rep = {'stage': 'collision', 'p1': p1, 'p2': p2, 'boundary': k, 'random': rnd, 'p1_exit': rc1, 'p2_exit': st2,
                    'files': [(md, sub, nm, len(b)) for md, sub, nm, b in files], 'p1_stderr': err1[-300:].decode(errors='replace'),
                    'p1_call_at_boundary': base[k - 1] if k - 1 < len(base) else None}
             if st2 is not None:
@@ -181,7 +192,11 @@ def collision_stage(ck, rng, stats, quick):
                 theirs = [f for f in files if f[3] == OTHER]
                 rest = [(f[0], f[1], f[2], len(f[3])) for f in files if not intact(f[3]) and f[3] != OTHER]
                 why = None
-                if st2 == '0' and len(theirs) != 1:
+                if p2 != 'script' and len(theirs) != 1:
+                    why = "the other mdsort's message exists %d times (it exits %s)" % (len(theirs), st2)
+                elif p2 != 'script' and st2 == '0' and theirs[0][0] != 'A':
+                    why = 'the other mdsort reports success but its message is in %s' % theirs[0][0]
+                elif st2 == '0' and len(theirs) != 1:
                     why = "the other party's message exists %d times after it was delivered under the name P1 uses" % len(theirs)
                 elif len(mine) != 1:
                     why = "P1's message exists %d times" % len(mine)
@@ -192,8 +207,8 @@ def collision_stage(ck, rng, stats, quick):
                 if why:
                     stats['viol'] += 1
                     if stats['viol'] <= 4:
-                        ck.violation('name collision: P1 = mdsort %s, the other party delivers under the same name before call %d of P1 (%s): %s' % (
-                            p1, k, rep['p1_call_at_boundary'], why), rep)
+                        ck.violation('name collision: P1 = mdsort %s, the other party (%s) delivers under the same name before call %d of P1 (%s): %s' % (
+                            p1, p2, k, rep['p1_call_at_boundary'], why), rep)
                 else:
                     stats['nontrivial'] += 1
             sb.cleanup()
